@@ -236,6 +236,21 @@ func (u *universe) membershipErrors(c *flows.Contact) []string {
 	return errs
 }
 
+func subsetOf(a, b []string) bool {
+	for _, x := range a {
+		found := false
+		for _, y := range b {
+			if x == y {
+				found = true
+			}
+		}
+		if !found {
+			return false
+		}
+	}
+	return true
+}
+
 func staticGroupsOf(u *universe, c *flows.Contact) []string {
 	var out []string
 	for _, g := range c.Groups().All() {
@@ -281,8 +296,8 @@ func oracleC06Direct(res *hx.Result, u *universe, in *directInput, wasActive boo
 	res.OracleChecks += 3
 	if errs := u.membershipErrors(c); len(errs) > 0 {
 		k := cls + ":membership-differs-from-query" + which
-		if !a.modified && len(staleBefore) > 0 {
-			// the modifier changed nothing and the stored membership was already wrong before
+		if !a.modified && !hasChangeEvent(a.eventsJS) && sameContact(a.pre, a.post) && subsetOf(errs, staleBefore) {
+			// the modifier changed and reported nothing, and exactly these memberships were already wrong before
 			k = "direct-noop-modifier:stale-stored-membership-kept"
 		}
 		res.Fail(k, in, fmt.Sprintf("after modifiers.Apply (modified=%v): %v", a.modified, errs))
